@@ -338,7 +338,11 @@ def check(mod, prop_id, tier, seed, t0, no_build=False):
         "violations": len(violation_lines),
     }
     common.EVIDENCE_DIR.mkdir(exist_ok=True)
-    (common.EVIDENCE_DIR / f"{prop_id}.json").write_text(json.dumps(evidence, indent=1, default=str) + "\n")
+    # evidence describes runs against /repo itself; a run redirected to another checkout (seeded-change trials)
+    # writes its record next to the replays instead
+    evidence_dir = common.EVIDENCE_DIR if str(common.REPO) == "/repo" else common.REPLAY_DIR
+    evidence_dir.mkdir(exist_ok=True)
+    (evidence_dir / f"{prop_id}.json").write_text(json.dumps(evidence, indent=1, default=str) + "\n")
     status = "OK" if exit_code == 0 else "VIOLATION"
     print(f"{status} property={prop_id} tier={tier} seed={seed} theorems={cov.get('discharged')}/{cov.get('obligations')} "
           f"cases={evaluations} compared={cov['traces_validated_against_impl']} wall={evidence['wall_s']}s")
